@@ -33,12 +33,9 @@ Definition jok (g : list block) (bb : nat) (j : jumps) : Prop :=
 Lemma jok_mono : forall g bb j g' bb', jok g bb j -> length g <= length g' ->
   (bb' = bb \/ length g <= bb') -> jok g' bb' j.
 Proof.
-  intros g bb j g' bb' (A&B&C&D) L E. repeat split; try lia.
-  - destruct E; lia.
-  - destruct (C c H); lia.
-  - destruct (C c H). destruct E; lia.
-  - destruct (D c H); lia.
-  - destruct (D c H). destruct E; lia.
+  intros g bb j g' bb' (A&B&C&D) L E. split; [lia|]. split; [destruct E; lia|]. split.
+  - intros c H. destruct (C c H). split; [lia | destruct E; lia].
+  - intros c H. destruct (D c H). split; [lia | destruct E; lia].
 Qed.
 
 (* what a visit returns: an open block, the old one or a new one *)
